@@ -93,7 +93,7 @@ func (c *Ctx) ruleRetryRequeue(rr *RuleRep, rr18 *RuleRep, modeOpt ...string) {
 	}
 	iv := invs[0]
 	// ascending iteration from 0: idx is phi(0, idx+1) or (phi(-1, ·)+1)
-	if mode != "exact" {
+	if mode != "exact" && mode != "order" {
 		// order is not a concern of this property
 	} else if !ascendingFromZero(iv.idx) {
 		rr.Bad(key+"/order", iv.call.Pos(), "queued entries are not retried in ascending queue order starting at the first")
@@ -130,7 +130,7 @@ func (c *Ctx) ruleRetryRequeue(rr *RuleRep, rr18 *RuleRep, modeOpt ...string) {
 	dst := failEdge.B.Succs[failEdge.K]
 	region := ReachableFromBlock(f, dst, PathQ{})
 	// nothing is invoked after the first failure
-	if loss {
+	if loss || mode == "order" {
 	} else if region[iv.call] {
 		rr.Bad(key+"/stop", iv.call.Pos(), "after a retransmission failed, later entries are still executed on the broken connection (and the re-queued tail is executed as well): entries are transmitted twice / out of order")
 	} else {
@@ -249,7 +249,9 @@ func (c *Ctx) ruleRetryRequeue(rr *RuleRep, rr18 *RuleRep, modeOpt ...string) {
 	sl, ok := seq[1].Spread.(*ssa.Slice)
 	switch {
 	case !ok || sl.X != snap:
-		if seq[1].Spread == snap {
+		if seq[1].Spread == snap && mode == "order" {
+			rr.OK(key+"/requeue-tail", stores[len(stores)-1].Pos(), "tail keeps the snapshot's order (duplicates are not this property's concern)")
+		} else if seq[1].Spread == snap {
 			rr.Bad(key+"/requeue-tail", stores[len(stores)-1].Pos(), "the whole snapshot is re-queued after a failure: entries that already completed (and the failed one) are transmitted again — a QoS 2 message is sent after its PUBCOMP")
 		} else {
 			rr.Bad(key+"/requeue-tail", stores[len(stores)-1].Pos(), "the re-queued tail is not a suffix of the snapshot")
@@ -263,6 +265,8 @@ func (c *Ctx) ruleRetryRequeue(rr *RuleRep, rr18 *RuleRep, modeOpt ...string) {
 			rr.Undecided(key+"/requeue-tail", sl.Pos(), "cannot relate the tail's low bound to the index of the failed entry")
 		case d == 1:
 			rr.OK(key+"/requeue-tail", sl.Pos(), "tail = snapshot[i+1:] with i the index of the failed entry")
+		case d <= 0 && mode == "order":
+			rr.OK(key+"/requeue-tail", sl.Pos(), "tail is a suffix of the snapshot containing every unattempted entry, in order")
 		case d <= 0:
 			rr.Bad(key+"/requeue-tail", sl.Pos(), "the re-queued tail starts at i%+d: the entry that just failed (and was replaced by its continuation) is queued again — after PUBREL/PUBCOMP the original PUBLISH would be re-sent", d)
 		default:
